@@ -147,7 +147,7 @@ pub fn ops_for(u: &Universe, msgs: &[usize], extra: bool) -> Vec<Step> {
 	let mut ts = BTreeSet::new();
 	for &i in msgs {
 		match &u.msgs[i].facts {
-			Facts::CA { scid, n1, n2, .. } if u.msgs[i].class == "valid:ca" => {
+			Facts::CA { scid, n1, n2, .. } if u.msgs[i].class == "valid:ca" || u.msgs[i].class.starts_with("conflict:") => {
 				scids.insert(*scid);
 				for n in [n1, n2] {
 					nodes.insert(u.nodes.iter().position(|x| x == n).unwrap());
@@ -262,7 +262,7 @@ pub fn plan(us: &[Universe; 2], tier: Tier) -> Plan {
 
 	// F1: systematic closed subsets of the valid messages
 	let vs = l(u, &["ca1", "ca2", "u1a1", "u1a2", "u1b1", "u2b1", "u2c1", "na_a1", "na_a2", "na_b1", "na_c1"]);
-	let (max_dup, max_op1, max_prod) = if th { (6, 5, 4) } else { (5, 4, 3) };
+	let (max_dup, max_op1, max_prod) = if th { (8, 6, 5) } else { (5, 4, 3) };
 	for n in 1..=max_dup {
 		for s in closed_subsets(u, &vs, n) {
 			pools.push(Pool { family: "valid-subsets-dup", era: Era::Past, msgs: s.clone(), constrained: true, dup: true, ops: vec![], max_ops: 0 });
@@ -332,6 +332,20 @@ pub fn plan(us: &[Universe; 2], tier: Tier) -> Plan {
 		}
 	}
 
+	// F3b: two fully valid announcements for the same outpoint naming different nodes: the later one
+	// replaces the earlier (documented reorg handling); judged against the reference only
+	{
+		let m = l(u, &["ca1", "ca1x", "u1a1", "u1b1", "na_b1"]);
+		pools.push(Pool { family: "conflicting-announcement-dup", era: Era::Past, msgs: m.clone(), constrained: true, dup: true, ops: vec![], max_ops: 0 });
+		for e in eras {
+			pools.push(Pool { family: "conflicting-announcement-op", era: e, msgs: m.clone(), constrained: true, dup: false, ops: ops_for(u, &m, false, e), max_ops: 1 });
+		}
+		if th {
+			let m = l(u, &["ca1", "ca1x", "ca2", "u1a1", "u1b1", "na_b1", "na_c1"]);
+			pools.push(Pool { family: "conflicting-announcement-dup", era: Era::Past, msgs: m, constrained: true, dup: true, ops: vec![], max_ops: 0 });
+		}
+	}
+
 	// F4: no ordering constraint at all (updates and node announcements before their announcement)
 	let mut unc = vec![vec!["ca1", "u1a1", "u1a2", "na_a1"], vec!["ca1", "ca2", "u1a1", "u2c1", "na_b1"]];
 	if th {
@@ -397,6 +411,9 @@ pub fn plan(us: &[Universe; 2], tier: Tier) -> Plan {
 		pools.push(Pool { family: "rgs-one-op", era: e, msgs: m, constrained: true, dup: th, ops, max_ops: 1 });
 	}
 
+	// cheap, targeted families first; the systematic subsets (by far the largest) last and by size,
+	// so that a wall-clock cap cuts the largest pools only
+	pools.sort_by_key(|p| (p.family.starts_with("valid-subsets"), if p.family.starts_with("valid-subsets") { p.msgs.len() } else { 0 }));
 	let bounds = format!(
 		"3 nodes + 1 channel-less + 1 foreign key, 2 announced channels (+1 only in RGS snapshots); valid-subset pools of <= {} messages with one duplication, <= {} with one operation, <= {} with duplication x operation; largest pool {} messages; <= 2 operations per execution; 4 RGS v1 snapshots",
 		max_dup,
